@@ -20,6 +20,7 @@ EVENTS = [
     ['server_state', 0, 'frozen', [g2.APPS[0]]],
     ['server_state', 0, 'down'],
     ['server_state', 0, 'up'],
+    ['server_relabel', 0, 'p1'],
 ]
 
 
@@ -67,12 +68,13 @@ def _stores(tier):
 
 
 QUICK = {
-    'rn_n': [0, 1, 5], 'r0_n': [0, 2, 3, 5, 6], 'r0_1': [0, 1, 2, 3, 6],
+    'rn_n': [0, 1, 5], 'r0_n': [0, 2, 3, 5, 6, 13],
+    'r0_1': [0, 1, 2, 3, 6, 13],
     'r01_n': [0, 3, 5, 6], 'rn_01': [0, 6], 'r0_0': [3, 6],
     'ig': [0, 3, 7, 8], 'ig-pending': [0, 2, 7, 8], 'ig-shrunk': [0, 3],
     'ig-shrunk-swapped': [0, 5], 'down0': [0, 12, 1], 'nopres1': [0, 4],
     'once': [0, 3, 9, 10], 'stale': [0, 3],
-    'r1_n': [10, 11], 'r1_0': [9, 10],
+    'r1_n': [10, 11], 'r1_0': [9, 10, 13],
 }
 
 
